@@ -383,7 +383,7 @@ LAY_THEOREMS = {'lay_complement_eq', 'lay_vee_eq', 'lay_dual_eq', 'lay_involutio
 
 NUMBA_THEOREMS = {'nb_add_eq', 'nb_sub_eq', 'nb_mul_eq', 'nb_xor_eq', 'nb_or_eq', 'nb_invert_eq', 'nb_neg_eq', 'nb_pos_eq', 'nb_pow_eq', 'nb_call_eq', 'nb_reuse_eq'}
 
-SERIES_THEOREMS = {'series_sin_eq', 'series_sinh_eq', 'series_cos_eq', 'series_cosh_eq'}
+SERIES_THEOREMS = {'series_sin_eq', 'series_sinh_eq', 'series_cos_eq', 'series_cosh_eq', 'series_exp_eq'}
 
 PARSER_THEOREMS = {'parser_step_eq'}
 
